@@ -484,6 +484,7 @@ class FitBase(FileIOMixin, object):
 
     @data.setter
     def data(self, new_data):
+        _previous_data_container = self._data_container
         self._set_new_data(new_data)
         # validate cost function
         # check the data the cost function actually receives (e.g. only the y data for xy fits)
@@ -491,6 +492,9 @@ class FitBase(FileIOMixin, object):
         _cost_data = self.data if _data_node is None else _data_node.value
         _data_and_cost_compatible, _reason = self._cost_function.is_data_compatible(_cost_data)
         if not _data_and_cost_compatible:
+            if _previous_data_container is not None:
+                # leave the fit as it was before the rejected data
+                self._set_new_data(_previous_data_container)
             raise ValueError("Fit data and cost function are not compatible: %s" % _reason)
         self._set_new_parametric_model()
         self._param_model._on_error_change_callback = self._on_error_change
